@@ -23,6 +23,9 @@ pub struct CCfg {
     pub ep: Vec<u32>,
     pub perturb: u8,
     pub grace_us: u64,
+    /// one long stall (ms) with the queue full and callers blocked: exposes timed waits in the send
+    /// path. Virtual (free) under Miri, rare natively.
+    pub long_stall_ms: u64,
 }
 
 pub fn gen(rng: &mut Rng, tiny: bool, focus: &str) -> CCfg {
@@ -55,6 +58,7 @@ pub fn gen(rng: &mut Rng, tiny: bool, focus: &str) -> CCfg {
         ep: (0..4).map(|_| rng.below(n_ep) as u32).collect(),
         perturb: if gated { rng.below(2) as u8 } else { 2 },
         grace_us: if tiny { 0 } else { *rng.pick(&[0u64, 200, 1000, 3000]) },
+        long_stall_ms: if cfg!(miri) { 40_000 } else if !tiny && variant == 0 && rng.chance(1, 300) { *rng.pick(&[1100u64, 2300, 3600]) } else { 0 },
     }
 }
 
@@ -70,6 +74,7 @@ pub fn describe(c: &CCfg) -> J {
         ("actions_per_producer", J::U(c.per_prod as u64)),
         ("entry_points", J::A(c.ep.iter().map(|e| J::s(EP_NAMES[*e as usize])).collect())),
         ("grace_us", J::U(c.grace_us)),
+        ("long_stall_ms", J::U(c.long_stall_ms)),
     ])
 }
 
@@ -124,6 +129,7 @@ pub fn execute(c: &CCfg, seed: u64) -> W {
             0 => {
                 // stepper: one token at a time; before each token wait for the exact quiescent point
                 let mut taken = 0u64;
+                let mut stalled = false;
                 loop {
                     // reducer parked inside action number taken+1
                     if !gate.wait_parked(1) {
@@ -138,6 +144,11 @@ pub fn execute(c: &CCfg, seed: u64) -> W {
                     // grace: lets an over-admitting queue show itself (detection power only)
                     if c.grace_us > 0 {
                         std::thread::sleep(std::time::Duration::from_micros(c.grace_us));
+                    }
+                    if c.long_stall_ms > 0 && !stalled && expect < total {
+                        // callers are blocked on a full queue right now: keep the reducer parked
+                        stalled = true;
+                        std::thread::sleep(std::time::Duration::from_millis(c.long_stall_ms));
                     }
                     w.mark(1, taken);
                     if taken == total {
